@@ -1,0 +1,17 @@
+//! Verification hook (compiled only with `--cfg mmtk_verif`): an environment step that runs
+//! before every atomic metadata access.  A harness installs a call-back that may rewrite the
+//! accessed memory the way *other threads running the same protocol* could (symbolic
+//! interference); without a call-back installed this is a no-op.
+
+use crate::util::Address;
+
+/// The call-back; set by the harness before the code under test runs.
+pub static mut STEP: Option<fn(Address)> = None;
+
+/// Called as the first statement of every atomic accessor.
+#[inline(always)]
+pub fn step(addr: Address) {
+    if let Some(f) = unsafe { STEP } {
+        f(addr)
+    }
+}
